@@ -89,6 +89,47 @@ class MappingSub2(DerivedMapping):
 NT = collections.namedtuple("NT", "a b")
 
 
+class DuckSeq:
+    """List-like by protocol only (no ABC base, not registered): __getitem__/__len__/__iter__/__contains__."""
+
+    def __init__(self, items=(1, 2, 3)):
+        self._items = list(items)
+
+    def __getitem__(self, i):
+        return self._items[i]
+
+    def __len__(self):
+        return len(self._items)
+
+    def __iter__(self):
+        return iter(self._items)
+
+    def __contains__(self, x):
+        return x in self._items
+
+
+class DuckMap:
+    """Dict-like by protocol only (no ABC base, not registered): keys/__getitem__/__len__/__iter__/items."""
+
+    def __init__(self):
+        self._d = {"a": 1}
+
+    def keys(self):
+        return self._d.keys()
+
+    def items(self):
+        return self._d.items()
+
+    def __getitem__(self, k):
+        return self._d[k]
+
+    def __len__(self):
+        return len(self._d)
+
+    def __iter__(self):
+        return iter(self._d)
+
+
 class StrMapping(str):
     """A str subclass that is (registered as) a Mapping: scalar by one test, mapping by another."""
 
@@ -194,6 +235,9 @@ def pool(with_numpy=True):
     p["userdict"] = lambda: collections.UserDict(a=1)
     p["userlist"] = lambda: collections.UserList([1])
     p["deque"] = lambda: collections.deque([1, 2])
+    p["duckseq"] = lambda: DuckSeq()
+    p["duckseq_nested"] = lambda: {"v": DuckSeq([4, 5])}
+    p["duckmap"] = lambda: DuckMap()
     p["bothms"] = lambda: BothMS({"x": 1, "y": 2})
     # multi-category values whose ACCEPTANCE depends on which category wins (non-str / dotted keys are only seen when the
     # value is walked as a mapping)
